@@ -17,6 +17,39 @@ type modInfo struct {
 	vars    map[*types.Var]bool
 	heapAll bool
 	keys    map[string]bool
+	ghosts  map[string]bool // function-level ghost variables that contracts of callees in the body set
+}
+
+// contractOfCall returns the contract that would be applied to this call, if any
+// (static repo callee, interface method, function-typed struct field).
+func (fv *funcVerifier) contractOfCall(call *ast.CallExpr) *FuncSpec {
+	if fn := fv.staticCallee(call); fn != nil {
+		if fv.prog.InRepo(fn.Pkg()) {
+			return fv.prog.Specs.Funcs[FuncKey(fn)]
+		}
+		return nil
+	}
+	if im := fv.ifaceMethod(call); im != nil {
+		if sig, ok := im.Type().(*types.Signature); ok && sig.Recv() != nil {
+			if n, ok := sig.Recv().Type().(*types.Named); ok && n.Obj().Pkg() != nil {
+				return fv.prog.Specs.Funcs[ShortPkg(n.Obj().Pkg().Path())+"."+n.Obj().Name()+"."+im.Name()]
+			}
+		}
+		return nil
+	}
+	if sel, ok := ast.Unparen(call.Fun).(*ast.SelectorExpr); ok {
+		if s, ok := fv.info.Selections[sel]; ok && s.Kind() == types.FieldVal {
+			if n, ok := derefNamed(fv.typeOf(sel.X)); ok && n.Obj().Pkg() != nil {
+				if sp := fv.prog.Specs.Funcs[ShortPkg(n.Obj().Pkg().Path())+"."+n.Obj().Name()+"."+sel.Sel.Name]; sp != nil {
+					return sp
+				}
+			}
+		}
+	}
+	if n, ok := fv.typeOf(call.Fun).(*types.Named); ok && n.Obj().Pkg() != nil {
+		return fv.prog.Specs.Funcs[ShortPkg(n.Obj().Pkg().Path())+"."+n.Obj().Name()]
+	}
+	return nil
 }
 
 func (fv *funcVerifier) pureCall(call *ast.CallExpr) bool {
@@ -50,7 +83,26 @@ func (fv *funcVerifier) pureCall(call *ast.CallExpr) bool {
 }
 
 func (fv *funcVerifier) computeMod(nodes ...ast.Node) *modInfo {
-	mi := &modInfo{vars: map[*types.Var]bool{}, keys: map[string]bool{}}
+	mi := &modInfo{vars: map[*types.Var]bool{}, keys: map[string]bool{}, ghosts: map[string]bool{}}
+	// ghost variables set by callee contracts, also inside function literals (go/defer closures run inline in mode goinline)
+	for _, n := range nodes {
+		if n == nil {
+			continue
+		}
+		ast.Inspect(n, func(m ast.Node) bool {
+			if call, ok := m.(*ast.CallExpr); ok {
+				if tv, isT := fv.info.Types[call.Fun]; isT && tv.IsType() {
+					return true
+				}
+				if sp := fv.contractOfCall(call); sp != nil {
+					for _, g := range sp.Sets {
+						mi.ghosts[g.Name] = true
+					}
+				}
+			}
+			return true
+		})
+	}
 	markLHS := func(e ast.Expr) {
 		e = ast.Unparen(e)
 		if id, ok := e.(*ast.Ident); ok {
@@ -148,6 +200,18 @@ func (fv *funcVerifier) computeMod(nodes ...ast.Node) *modInfo {
 }
 
 func (fv *funcVerifier) havocLoop(st *State, mi *modInfo) {
+	// Earlier iterations may have allocated objects: the allocation frontier (and, when the body
+	// can write the heap, the heap) is forgotten BEFORE the loop variables get their arbitrary
+	// values, so that those values may refer to objects created inside the loop.
+	if mi.heapAll {
+		fv.inLoopHavoc = true
+		fv.havocAll(st)
+		fv.inLoopHavoc = false
+	} else {
+		nf := fv.c.Fresh("frontier", smt.Int)
+		fv.assume(st, smt.Ge(nf, st.frontier))
+		st.frontier = nf
+	}
 	var vs []*types.Var
 	for v := range mi.vars {
 		if _, ok := st.vars[v]; ok {
@@ -158,10 +222,17 @@ func (fv *funcVerifier) havocLoop(st *State, mi *modInfo) {
 	for _, v := range vs {
 		st.vars[v] = fv.fresh(st, "lh_"+v.Name(), v.Type())
 	}
-	if mi.heapAll {
-		fv.inLoopHavoc = true
-		fv.havocAll(st)
-		fv.inLoopHavoc = false
+	// function-level ghost variables are updated by the contracts of callees ("sets"): earlier
+	// iterations may have changed the ones a callee of the body sets
+	var gs []string
+	for g := range mi.ghosts {
+		if _, have := st.ghost[g]; have {
+			gs = append(gs, g)
+		}
+	}
+	sort.Strings(gs)
+	for _, g := range gs {
+		st.ghost[g] = fv.c.Fresh("lhg_"+g, st.ghost[g].Sort)
 	}
 	// time may pass
 	n := fv.c.Fresh("now", smt.Int)
